@@ -194,7 +194,7 @@ func addrAddImm(a model.Addr, imm int32) model.Addr {
 	if imm >= 0 {
 		return a + model.Addr(imm)
 	} else {
-		return a - model.Addr(-imm)
+		return a - model.Addr(-int64(imm))
 	}
 }
 
